@@ -7,7 +7,7 @@ kind classes: procs (subroutine, function, generic interface), types, vars
 """
 
 CLASS = {"var": "vars", "param": "vars", "type": "types", "sub": "procs", "func": "procs",
-         "generic": "procs", "absint": "absints"}
+         "generic": "procs", "absint": "absints", "iface": "procs"}
 CLASSES = ("procs", "types", "vars", "absints")
 
 
@@ -82,3 +82,20 @@ def solve(world):
     for unit in world.get("progs", []) + world.get("extprocs", []):
         tables[unit["name"].lower()] = merge(imports(unit["uses"], exports_of), own_table(unit))
     return tables, exports_of
+
+
+def inner_scopes(world, exports_of, tables):
+    """Scopes nested in modules that carry their own USE statements: module procedures
+    (host association: the module's table is visible too) and interface bodies (no host
+    association in Fortran; only what their own USE statements import is asserted).
+    -> {"mod::ent": {"kind": "sub"|"iface", "imports": table, "table": table|None}}"""
+    out = {}
+    for mod in world["mods"]:
+        for e in mod["ents"]:
+            if e.get("uses") is None and not e.get("argtype"):
+                continue
+            imp = imports(e.get("uses") or [], exports_of)
+            key = "%s::%s" % (mod["name"].lower(), e["name"].lower())
+            out[key] = {"kind": e["kind"], "imports": imp,
+                        "table": merge(tables[mod["name"].lower()], imp) if e["kind"] != "iface" else None}
+    return out
